@@ -772,10 +772,15 @@ def o7_7_pick_compaction(mir, tier):
                 res.cases['%s L%d file=%s ptr=%s -> %s' % (trig, level, fidx, has_ptr, got)] = 1
                 def argv(m):
                     return ['pick_compaction', trig, str(level), str(fidx if fidx is not None else 0), ('%s:%d' % (key_bytes(mval(m, PTR[0])), mval(m, PTR[1]))) if has_ptr else 'none'] + _levels_argv(m, LF)
+                # for the native replay prefer layouts in which level 1 does not overlap the level-0 files (otherwise the later input
+                # expansion over level 1 pulls the missing level-0 file back in and masks the effect)
+                hint = [Or(ULT(g['lg'][0], f['sm'][0]), UGT(g['sm'][0], f['lg'][0])) for g in LF[1] for f in LF[0]]
                 for label, post in posts:
                     ex.record_formula(label, pc, Not(post))
                     m = ex.model(Not(post))
-                    if m is not None: res.violations.append({'label': label, 'trigger': [trig, level, fidx], 'executor_result': got, 'replay': argv(m)})
+                    if m is not None:
+                        m = ex.model(Not(post), *hint) or m
+                        res.violations.append({'label': label, 'trigger': [trig, level, fidx], 'executor_result': got, 'replay': argv(m)})
             ptrs = [Enum('None')] * 7
             if has_ptr: ptrs = [Enum('None'), Enum('Some', (ptr,))] + [Enum('None')] * 5
             vs = mir.mk_struct('VersionSet', options={'abstract': True, '__ty': 'DbOptions'}, compaction_pointers=ptrs)
